@@ -119,7 +119,11 @@ class SemantivaOrchestrator(ABC):
         if pending_meta is None and self._next_run_metadata is not None:
             pending_meta = self._next_run_metadata
         self._next_run_metadata = None
-        self._current_run_metadata = dict(pending_meta or {})
+        # This run's metadata is read from a local: the attribute below is shared by
+        # every run of this orchestrator and is rewritten (and reset) by any other
+        # run that starts or ends in the meantime.
+        current_meta: dict[str, Any] = dict(pending_meta or {})
+        self._current_run_metadata = current_meta
 
         canonical = canonical_spec
         if canonical is not None:
@@ -141,15 +145,15 @@ class SemantivaOrchestrator(ABC):
         trace_ctx: TraceContext | None = None
         run_space_index: int | None = None
         run_space_context: dict | None = None
-        if self._current_run_metadata:
-            ctx_candidate = self._current_run_metadata.get("trace_context")
+        if current_meta:
+            ctx_candidate = current_meta.get("trace_context")
             if isinstance(ctx_candidate, TraceContext):
                 trace_ctx = ctx_candidate
             # Extract run-specific data for pipeline_start
-            if "run_space_index" in self._current_run_metadata:
-                run_space_index = self._current_run_metadata["run_space_index"]
-            if "run_space_context" in self._current_run_metadata:
-                run_space_context = self._current_run_metadata["run_space_context"]
+            if "run_space_index" in current_meta:
+                run_space_index = current_meta["run_space_index"]
+            if "run_space_context" in current_meta:
+                run_space_context = current_meta["run_space_context"]
 
         # Compute semantic IDs BEFORE on_pipeline_start (without instantiation)
         if trace is not None:
